@@ -157,6 +157,38 @@ def dest_monitor(lines, out):
     return None
 
 
+def stall_cases(rnd, n):
+    """the endpoint stops reading for a while (the writer blocks in a socket write, conn.In fills, lines are dropped and counted),
+    Destination.Flush() is called meanwhile, then the endpoint reads on: the connection never broke, so the stream it delivers
+    must still be the handed-off lines in order, each once, whole, minus the counted drops"""
+    cases = []
+    for i in range(n):
+        iobuf = rnd.choice([64, 1000, 4096])
+        connbuf = rnd.choice([1, 10, 100])
+        ops = ["cfg 0 %d %d %d 0" % (iobuf, connbuf, rnd.choice([1, 5, 20]))]
+        k = 0
+        for _ in range(rnd.randint(5, 40)):
+            ops.append("l %s 0" % ("w.%d 1 1500000000" % k).encode().hex())
+            k += 1
+        ops.append("mode blackhole")
+        for _ in range(rnd.choice([5500, 7000])):      # well beyond the loopback socket buffers (about 4 MB here)
+            ops.append("l %s 0" % ("s.%d.%s 1 1500000000" % (k, "y" * 1000)).encode().hex())
+            k += 1
+        # Destination.Flush() while the writer is blocked (only tests and the shutdown path call it; the relay loop waits
+        # for the writer, so nothing is handed off until the endpoint reads again)
+        for _ in range(rnd.randint(0, 2)):
+            ops.append("flush")
+            ops.append("sleep %d" % rnd.choice([1, 10, 40]))
+        ops.append("mode healthy")
+        ops.append("sleep 50")
+        for _ in range(rnd.randint(5, 60)):
+            ops.append("l %s 0" % ("a.%d 1 1500000000" % k).encode().hex())
+            k += 1
+        ops.append("end")
+        cases.append(("st%d" % i, ops))
+    return cases
+
+
 def run(ctx):
     ctx.assumptions += ["the kernel delivers over TCP what was written to the socket", "connection healthy for the whole case (outages are C06/C07)"]
     ctx.prepare()
@@ -170,3 +202,5 @@ def run(ctx):
                classify=lambda l, o: "pickle" if l[0].split()[1] == "1" else "plain")
     ctx.stream("dest-smallqueue", "dest", dest_cases(ctx.rng("dd"), ctx.scale(15, 200), False), monitor=dest_monitor, model=False, shrink=False,
                classify=lambda l, o: "drops" if any(x.startswith("drops") and "slow_conn=0" not in x for x in o) else "nodrops")
+    ctx.stream("dest-stall-flush", "dest", stall_cases(ctx.rng("dst"), ctx.scale(3, 30)), monitor=dest_monitor, model=False, shrink=False,
+               timeout=ctx.scale(600, 3600), classify=lambda l, o: "flushes=%d" % sum(1 for x in l if x == "flush"))
